@@ -629,6 +629,31 @@ def gen_focus(rng, kind):
                 else:
                     ops.append("yd")
             bodies.append(ops)
+    elif kind == "acq" and rng.random() < 0.2:
+        # one task, a strictly fair semaphore without permits, three or four queued requests: cancellations inside the queue,
+        # releases, and polls in an order of their own - the grant order must stay the arrival order
+        objs = "a0,q,s0:f"
+        k = rng.choice([3, 4, 4])
+        need = [rng.choice([1, 1, 2]) for _ in range(k)]
+        ops = ["qn1.%d.2.%d" % (i, need[i]) for i in range(k)]
+        order = list(range(k))
+        if rng.random() < 0.3:
+            rng.shuffle(order)
+        ops += ["qp1.%d.2" % i for i in order]
+        live = list(order)
+        for _ in range(rng.randint(2, 6)):
+            r = rng.random()
+            if r < 0.3 and len(live) > 1:
+                i = live.pop(rng.randrange(0, max(1, len(live) - 1)))
+                ops.append("qd1.%d.2" % i)
+            elif r < 0.65:
+                ops.append("sr2.%d" % rng.choice([1, 1, 2]))
+            elif live:
+                for i in rng.sample(live, len(live)):
+                    ops.append("qp1.%d.2" % i)
+        for i in live:
+            ops.append("qd1.%d.2" % i)
+        return "prog none - %d %s %s" % (rng.getrandbits(32), objs, ";".join(ops))
     elif kind == "acq":
         # Acquire futures handled by hand: slots 0,1 are created by main before the spawns, polled by any task (hand-over
         # between tasks) and dropped by main after the joins; slots 2,3 are main's own (created, polled and dropped at
